@@ -255,6 +255,9 @@ def run(ck):
             hm, sb = ag.get_Hamiltonian(), ag.get_SystemBathInteraction()
             for what, calc in (("RedfieldRelaxationTensor", lambda: numpy.array(RedfieldRelaxationTensor(hm, sb).data).copy()),
                                ("RedfieldRelaxationTensor(as_operators -> tensor)", lambda: (lambda R: (R.convert_2_tensor(), numpy.array(R.data).copy())[1])(RedfieldRelaxationTensor(hm, sb, as_operators=True))),
+                               ("RedfieldRelaxationTensor(as_operators: K, Lambda, Lambda^+)", lambda: (lambda R: numpy.concatenate(
+                                   [numpy.array(R.Km, dtype=complex).ravel(), numpy.array(R.Lm, dtype=complex).ravel(),
+                                    numpy.array(R.Ld, dtype=complex).ravel()]))(RedfieldRelaxationTensor(hm, sb, as_operators=True))),
                                ("RedfieldRateMatrix", lambda: numpy.array(RedfieldRateMatrix(hm, sb).data).copy())):
                 serial = calc()
                 for P in (2, 3, nsite + 2):
